@@ -483,13 +483,28 @@ class Mir:
         if len(hits) != 1: raise KeyError('method (%s,%s,%s,%s): %d hits' % (ty, trait, meth, file, len(hits)))
         return self.fns[hits[0]].parse()
 
-    def closure_of(self, closure_type):
-        """closure type text `{closure@src/x.rs:L:C: L:C}` -> Fn (body)"""
-        m = re.match(r'^\{closure@(src/[\w/.]+:\d+:\d+: \d+:\d+)\}$', closure_type.strip())
-        if not m: raise KeyError('closure type: ' + closure_type)
-        key = '{closure@%s}' % m.group(1)
-        hits = [n for n, f in self.fns.items() if '{closure#' in n and f.args and key in f.args[0][1]]
-        if len(hits) != 1: raise KeyError('closure %s: %d hits' % (key, len(hits)))
+    def closure_of(self, closure_type, parent=None):
+        """closure type text `{closure@src/x.rs:L:C: L:C}` -> Fn (body).  Macro-generated closures (izip!) share
+        one type text; they are disambiguated by the function that created the value and must then be
+        interchangeable (same signature)."""
+        key = closure_type.strip()
+        if not hasattr(self, '_clo_idx'):
+            self._clo_idx = {}
+            for n, f in self.fns.items():
+                if '{closure#' in n and f.args:
+                    mm = re.search(r'\{closure@[^{}]*\}', f.args[0][1])
+                    if mm: self._clo_idx.setdefault(mm.group(0), []).append(n)
+        hits = self._clo_idx.get(key, [])
+        if len(hits) > 1 and parent is not None:
+            h2 = [h for h in hits if h.startswith(parent + '::{closure#')]
+            if h2: hits = h2
+        if len(hits) > 1:
+            def shape(t):
+                t = re.sub(r'\[[^\[\]]*\]', 'T', re.sub(r'<[^<>]*>', '', re.sub(r'<[^<>]*>', '', t)))
+                return re.sub(r'[^(),]', '', t)
+            sigs = {tuple(shape(t) for _, t in self.fns[h].args[1:]) + (shape(self.fns[h].ret),) for h in hits}
+            if len(sigs) == 1 and '/itertools-' in key: hits = hits[:1]
+        if len(hits) != 1: raise KeyError('closure %s (parent %s): %d hits' % (key, parent, len(hits)))
         return self.fns[hits[0]].parse()
 
 def source_hash(repo):
